@@ -186,9 +186,6 @@ func (p Percentage) Negate() Percentage {
 // UnmarshalText will decode the percentage value, even if it is quoted
 // as a string.
 func (p *Percentage) UnmarshalText(value []byte) error {
-	if string(value) == "null" {
-		return nil
-	}
 	result, err := PercentageFromString(string(value))
 	if err != nil {
 		return err
@@ -200,6 +197,9 @@ func (p *Percentage) UnmarshalText(value []byte) error {
 // UnmarshalJSON ensures percentages will be parsed even if defined as
 // numbers in the source JSON.
 func (p *Percentage) UnmarshalJSON(value []byte) error {
+	if string(value) == "null" {
+		return nil
+	}
 	return p.UnmarshalText(unquote(value))
 }
 
